@@ -1,4 +1,6 @@
+import PyAirtouch.Model.CodecBase
 import PyAirtouch.Model.At4.X2B
+import PyAirtouch.Model.CodecsPart2
 /-!
 # Dispatch table used by the driver: one entry per message module
 
@@ -9,23 +11,9 @@ import PyAirtouch.Model.At4.X2B
 namespace PyAirtouch.Model.Codecs
 open PyAirtouch.Model
 
-/-- header parameters: `[message_length]`, or `[non_repeat_length, repeat_length, repeat_count]`
-    for the sub-messages of the AirTouch 5 control/status wrapper -/
-abbrev HP := List Nat
-
-structure Codec where
-  dec : Bytes → HP → Except DecErr (String × Nat)
-  reenc : Bytes → HP → Except DecErr (Except EncErr (String × Bytes))
-
-/-- a codec whose decoder only looks at `header.message_length` -/
-def mk {M} (decode : Bytes → Nat → Except DecErr (M × Bytes)) (canon : M → String)
-    (size : M → Nat) (encode : M → Except EncErr Bytes) : Codec :=
-  { dec := fun b hp => (decode b (hp.getD 0 0)).map (fun p => (canon p.1, p.2.length))
-    reenc := fun b hp => (decode b (hp.getD 0 0)).map (fun p => (encode p.1).map (fun e => (toString (size p.1), e))) }
-
 def table : List ((Nat × String) × Codec) := [
   ((4, "2B"), mk At4.X2B.decode At4.X2B.canon At4.X2B.size (fun m => .ok (At4.X2B.encode m)))
-]
+] ++ CodecsPart2.table
 
 def find (g : Nat) (key : String) : Option Codec := (table.find? (fun p => p.1 = (g, key))).map (·.2)
 
